@@ -207,10 +207,12 @@ def work_dispatch(_):
         for code, cls in sorted(commands.all_commands.items()):
             if getattr(cls, "code", None) != code:
                 out.append(Violation("registry:key-differs-from-class-code", f"{code}: {cls.__name__}.code={getattr(cls, 'code', None)}", {"code": code}))
-            for fl in (0x80, 0x00, 0xc0, 0x40, 0xf0, 0x70):
+            # every combination of the four defined flag bits (+ one with reserved bits) x application ids {0, 4, 2^32-1} x boundary ids
+            for fl, app in [(f, 4) for f in list(range(0, 256, 16)) + [0x8f]] + [(f, a) for f in (0x80, 0x00, 0xc0, 0x60) for a in (0, 0xffffffff)]:
                 n += 1
-                wire = rc.enc_msg(code, fl, 4, 7, 9, [rc.utf8(263, "s;1"), rc.u32(268, 2001)])
-                case = {"code": code, "flags": fl}
+                hbh, e2e = (7, 9) if app == 4 else (0, 0xffffffff)
+                wire = rc.enc_msg(code, fl, app, hbh, e2e, [rc.utf8(263, "s;1"), rc.u32(268, 2001)])
+                case = {"code": code, "flags": fl, "application_id": app}
                 try:
                     m = Message.from_bytes(wire)
                     want = expected_class(commands, DefinedMessage, UndefinedMessage, code, bool(fl & 0x80))
@@ -218,9 +220,15 @@ def work_dispatch(_):
                         out.append(Violation("dispatch:wrong-class", f"{case}: {type(m).__name__}, want {want.__name__}", case))
                     if m.header.command_code != code:
                         out.append(Violation("dispatch:command-code-changed", f"{case}: {m.header.command_code}", case))
+                    mh = m.header
+                    got = (mh.version, mh.command_flags, mh.command_code, mh.application_id, mh.hop_by_hop_identifier, mh.end_to_end_identifier)
+                    if got != (1, fl, code, app, hbh, e2e):
+                        out.append(Violation("decode:header-differs-from-wire:typed:per-command", f"{case}: decoded {got} ({type(m).__name__})", case))
                     pm = Message.from_bytes(wire, plain_msg=True)
                     if type(pm) is not commands.all_commands[code]:
                         out.append(Violation("dispatch:plain-wrong-class", f"{case}: {type(pm).__name__}", case))
+                    if pm.as_bytes() != wire:
+                        out.append(Violation("generic-decode:reencode-mismatch:per-command", f"{case}: {pm.as_bytes().hex()[:60]} != {wire.hex()[:60]}", case))
                 except Exception as e:
                     out.append(Violation("dispatch:raises", f"{case}: {type(e).__name__}: {e}", case))
         for code in (0, 2, 8_000_000, (1 << 24) - 1):
